@@ -2057,7 +2057,9 @@ let backend_atlas =
 
 let t_cms_aod_0 =
   (TText
-    ('#'::('!'::('/'::('u'::('s'::('r'::('/'::('b'::('i'::('n'::('/'::('e'::('n'::('v'::(' '::('p'::('y'::('t'::('h'::('o'::('n'::('\n'::('\n'::('i'::('m'::('p'::('o'::('r'::('t'::(' '::('F'::('W'::('C'::('o'::('r'::('e'::('.'::('P'::('a'::('r'::('a'::('m'::('e'::('t'::('e'::('r'::('S'::('e'::('t'::('.'::('C'::('o'::('n'::('f'::('i'::('g'::(' '::('a'::('s'::(' '::('c'::('m'::('s'::(' '::(' '::('#'::(' '::('t'::('y'::('p'::('e'::(':'::(' '::('i'::('g'::('n'::('o'::('r'::('e'::('\n'::('i'::('m'::('p'::('o'::('r'::('t'::(' '::('o'::('s'::('\n'::('\n'::('p'::('r'::('o'::('c'::('e'::('s'::('s'::(' '::('='::(' '::('c'::('m'::('s'::('.'::('P'::('r'::('o'::('c'::('e'::('s'::('s'::('('::('"'::('D'::('e'::('m'::('o'::('"'::(')'::('\n'::('\n'::('p'::('r'::('o'::('c'::('e'::('s'::('s'::('.'::('l'::('o'::('a'::('d'::('('::('"'::('F'::('W'::('C'::('o'::('r'::('e'::('.'::('M'::('e'::('s'::('s'::('a'::('g'::('e'::('S'::('e'::('r'::('v'::('i'::('c'::('e'::('.'::('M'::('e'::('s'::('s'::('a'::('g'::('e'::('L'::('o'::('g'::('g'::('e'::('r'::('_'::('c'::('f'::('i'::('"'::(')'::('\n'::('\n'::('p'::('r'::('o'::('c'::('e'::('s'::('s'::('.'::('m'::('a'::('x'::('E'::('v'::('e'::('n'::('t'::('s'::(' '::('='::(' '::('c'::('m'::('s'::('.'::('u'::('n'::('t'::('r'::('a'::('c'::('k'::('e'::('d'::('.'::('P'::('S'::('e'::('t'::('('::('i'::('n'::('p'::('u'::('t'::('='::('c'::('m'::('s'::('.'::('u'::('n'::('t'::('r'::('a'::('c'::('k'::('e'::('d'::('.'::('i'::('n'::('t'::('3'::('2'::('('::('-'::('1'::(')'::(')'::('\n'::('\n'::('f'::('i'::('l'::('e'::('l'::('i'::('s'::('t'::('P'::('a'::('t'::('h'::(' '::('='::(' '::('"'::('f'::('i'::('l'::('e'::('l'::('i'::('s'::('t'::('.'::('t'::('x'::('t'::('"'::('\n'::('f'::('i'::('l'::('e'::('N'::('a'::('m'::('e'::('s'::(' '::('='::(' '::('t'::('u'::('p'::('l'::('e'::('('::('['::('f'::('"'::('f'::('i'::('l'::('e'::(':'::('{'::('l'::('i'::('n'::('e'::('}'::('"'::(' '::('f'::('o'::('r'::(' '::('l'::('i'::('n'::('e'::(' '::('i'::('n'::(' '::('o'::('p'::('e'::('n'::('('::('f'::('i'::('l'::('e'::('l'::('i'::('s'::('t'::('P'::('a'::('t'::('h'::(','::(' '::('"'::('r'::('"'::(')'::('.'::('r'::('e'::('a'::('d'::('l'::('i'::('n'::('e'::('s'::('('::(')'::(']'::(')'::('\n'::('\n'::('p'::('r'::('o'::('c'::('e'::('s'::('s'::('.'::('s'::('o'::('u'::('r'::('c'::('e'::(' '::('='::(' '::('c'::('m'::('s'::('.'::('S'::('o'::('u'::('r'::('c'::('e'::('('::('\n'::(' '::(' '::(' '::(' '::('"'::('P'::('o'::('o'::('l'::('S'::('o'::('u'::('r'::('c'::('e'::('"'::(','::('\n'::(' '::(' '::(' '::(' '::('#'::(' '::('r'::('e'::('p'::('l'::('a'::('c'::('e'::(' '::('\''::('m'::('y'::('f'::('i'::('l'::('e'::('.'::('r'::('o'::('o'::('t'::('\''::(' '::('w'::('i'::('t'::('h'::(' '::('t'::('h'::('e'::(' '::('s'::('o'::('u'::('r'::('c'::('e'::(' '::('f'::('i'::('l'::('e'::(' '::('y'::('o'::('u'::(' '::('w'::('a'::('n'::('t'::(' '::('t'::('o'::(' '::('u'::('s'::('e'::('\n'::(' '::(' '::(' '::(' '::('f'::('i'::('l'::('e'::('N'::('a'::('m'::('e'::('s'::('='::('c'::('m'::('s'::('.'::('u'::('n'::('t'::('r'::('a'::('c'::('k'::('e'::('d'::('.'::('v'::('s'::('t'::('r'::('i'::('n'::('g'::('('::('*'::('f'::('i'::('l'::('e'::('N'::('a'::('m'::('e'::('s'::(')'::(','::('\n'::(')'::('\n'::('\n'::('p'::('r'::('o'::('c'::('e'::('s'::('s'::('.'::('d'::('e'::('m'::('o'::(' '::('='::(' '::('c'::('m'::('s'::('.'::('E'::('D'::('A'::('n'::('a'::('l'::('y'::('z'::('e'::('r'::('('::('"'::('A'::('n'::('a'::('l'::('y'::('z'::('e'::('r'::('"'::(')'::('\n'::('\n'::('o'::('u'::('t'::('p'::('u'::('t'::('_'::('f'::('i'::('l'::('e'::(' '::('='::(' '::('o'::('s'::('.'::('e'::('n'::('v'::('i'::('r'::('o'::('n'::('['::('"'::('C'::('M'::('S'::('_'::('O'::('U'::('T'::('P'::('U'::('T'::('_'::('F'::('I'::('L'::('E'::('"'::(']'::('\n'::('\n'::('p'::('r'::('o'::('c'::('e'::('s'::('s'::('.'::('T'::('F'::('i'::('l'::('e'::('S'::('e'::('r'::('v'::('i'::('c'::('e'::(' '::('='::(' '::('c'::('m'::('s'::('.'::('S'::('e'::('r'::('v'::('i'::('c'::('e'::('('::('"'::('T'::('F'::('i'::('l'::('e'::('S'::('e'::('r'::('v'::('i'::('c'::('e'::('"'::(','::(' '::('f'::('i'::('l'::('e'::('N'::('a'::('m'::('e'::('='::('c'::('m'::('s'::('.'::('s'::('t'::('r'::('i'::('n'::('g'::('('::('o'::('u'::('t'::('p'::('u'::('t'::('_'::('f'::('i'::('l'::('e'::(')'::(')'::('\n'::('\n'::('p'::('r'::('o'::('c'::('e'::('s'::('s'::('.'::('p'::(' '::('='::(' '::('c'::('m'::('s'::('.'::('P'::('a'::('t'::('h'::('('::('p'::('r'::('o'::('c'::('e'::('s'::('s'::('.'::('d'::('e'::('m'::('o'::(')'::[])))))))))))))))))))))))))))))))))))))))))))))))))))))))))))))))))))))))))))))))))))))))))))))))))))))))))))))))))))))))))))))))))))))))))))))))))))))))))))))))))))))))))))))))))))))))))))))))))))))))))))))))))))))))))))))))))))))))))))))))))))))))))))))))))))))))))))))))))))))))))))))))))))))))))))))))))))))))))))))))))))))))))))))))))))))))))))))))))))))))))))))))))))))))))))))))))))))))))))))))))))))))))))))))))))))))))))))))))))))))))))))))))))))))))))))))))))))))))))))))))))))))))))))))))))))))))))))))))))))))))))))))))))))))))))))))))))))))))))))))))))))))))))))))))))))))))))))))))))))))))))))))))))))))))))))))))))))))))))))))))))))))))))))))))))))))))))))))))))))))))))))))))))))))))))))))))))))))))))))))))))))))))))))))))) :: []
+    (append
+      ('#'::('!'::('/'::('u'::('s'::('r'::('/'::('b'::('i'::('n'::('/'::('e'::('n'::('v'::(' '::('p'::('y'::('t'::('h'::('o'::('n'::('\n'::('\n'::('i'::('m'::('p'::('o'::('r'::('t'::(' '::('F'::('W'::('C'::('o'::('r'::('e'::('.'::('P'::('a'::('r'::('a'::('m'::('e'::('t'::('e'::('r'::('S'::('e'::('t'::('.'::('C'::('o'::('n'::('f'::('i'::('g'::(' '::('a'::('s'::(' '::('c'::('m'::('s'::(' '::(' '::('#'::(' '::('t'::('y'::('p'::('e'::(':'::(' '::('i'::('g'::('n'::('o'::('r'::('e'::('\n'::('i'::('m'::('p'::('o'::('r'::('t'::(' '::('o'::('s'::('\n'::('\n'::('p'::('r'::('o'::('c'::('e'::('s'::('s'::(' '::('='::(' '::('c'::('m'::('s'::('.'::('P'::('r'::('o'::('c'::('e'::('s'::('s'::('('::('"'::('D'::('e'::('m'::('o'::('"'::(')'::('\n'::('\n'::('p'::('r'::('o'::('c'::('e'::('s'::('s'::('.'::('l'::('o'::('a'::('d'::('('::('"'::('F'::('W'::('C'::('o'::('r'::('e'::('.'::('M'::('e'::('s'::('s'::('a'::('g'::('e'::('S'::('e'::('r'::('v'::('i'::('c'::('e'::('.'::('M'::('e'::('s'::('s'::('a'::('g'::('e'::('L'::('o'::('g'::('g'::('e'::('r'::('_'::('c'::('f'::('i'::('"'::(')'::('\n'::('\n'::('p'::('r'::('o'::('c'::('e'::('s'::('s'::('.'::('m'::('a'::('x'::('E'::('v'::('e'::('n'::('t'::('s'::(' '::('='::(' '::('c'::('m'::('s'::('.'::('u'::('n'::('t'::('r'::('a'::('c'::('k'::('e'::('d'::('.'::('P'::('S'::('e'::('t'::('('::('i'::('n'::('p'::('u'::('t'::('='::('c'::('m'::('s'::('.'::('u'::('n'::('t'::('r'::('a'::('c'::('k'::('e'::('d'::('.'::('i'::('n'::('t'::('3'::('2'::('('::('-'::('1'::(')'::(')'::('\n'::('\n'::('f'::('i'::('l'::('e'::('l'::('i'::('s'::('t'::('P'::('a'::('t'::('h'::(' '::('='::(' '::('"'::('f'::('i'::('l'::('e'::('l'::('i'::('s'::('t'::('.'::('t'::('x'::('t'::('"'::('\n'::('f'::('i'::('l'::('e'::('N'::('a'::('m'::('e'::('s'::(' '::('='::(' '::('t'::('u'::('p'::('l'::('e'::('('::('['::('f'::('"'::('f'::('i'::('l'::('e'::(':'::('{'::('l'::('i'::('n'::('e'::('}'::('"'::(' '::('f'::('o'::('r'::(' '::('l'::('i'::('n'::('e'::(' '::('i'::('n'::(' '::('o'::('p'::('e'::('n'::('('::('f'::('i'::('l'::('e'::('l'::('i'::('s'::('t'::('P'::('a'::('t'::('h'::(','::(' '::('"'::('r'::('"'::(')'::('.'::('r'::('e'::('a'::('d'::('l'::('i'::('n'::('e'::('s'::('('::(')'::(']'::(')'::('\n'::('\n'::('p'::('r'::('o'::('c'::('e'::('s'::('s'::('.'::('s'::('o'::('u'::('r'::('c'::('e'::(' '::('='::(' '::('c'::('m'::('s'::('.'::('S'::('o'::('u'::('r'::('c'::('e'::('('::('\n'::(' '::(' '::(' '::(' '::('"'::('P'::('o'::('o'::('l'::('S'::('o'::('u'::('r'::('c'::('e'::('"'::(','::('\n'::(' '::(' '::(' '::(' '::('#'::(' '::('r'::('e'::('p'::('l'::('a'::('c'::('e'::(' '::('\''::('m'::('y'::('f'::('i'::('l'::('e'::('.'::('r'::('o'::('o'::('t'::('\''::(' '::('w'::('i'::('t'::('h'::(' '::('t'::('h'::('e'::(' '::('s'::('o'::('u'::('r'::('c'::('e'::(' '::('f'::('i'::('l'::('e'::(' '::('y'::('o'::('u'::(' '::('w'::('a'::('n'::('t'::(' '::('t'::('o'::(' '::('u'::('s'::('e'::('\n'::(' '::(' '::(' '::(' '::('f'::('i'::('l'::('e'::('N'::('a'::('m'::('e'::('s'::('='::('c'::('m'::('s'::('.'::('u'::('n'::('t'::('r'::('a'::('c'::('k'::('e'::('d'::('.'::('v'::('s'::('t'::('r'::('i'::('n'::('g'::('('::[])))))))))))))))))))))))))))))))))))))))))))))))))))))))))))))))))))))))))))))))))))))))))))))))))))))))))))))))))))))))))))))))))))))))))))))))))))))))))))))))))))))))))))))))))))))))))))))))))))))))))))))))))))))))))))))))))))))))))))))))))))))))))))))))))))))))))))))))))))))))))))))))))))))))))))))))))))))))))))))))))))))))))))))))))))))))))))))))))))))))))))))))))))))))))))))))))))))))))))))))))))))))))))))))))))))))))))))))))))))))))))))))))))))))))))))))))))))))))))))))))))))))))))))))))))))))))))))))))
+      ('*'::('f'::('i'::('l'::('e'::('N'::('a'::('m'::('e'::('s'::(')'::(','::('\n'::(')'::('\n'::('\n'::('p'::('r'::('o'::('c'::('e'::('s'::('s'::('.'::('d'::('e'::('m'::('o'::(' '::('='::(' '::('c'::('m'::('s'::('.'::('E'::('D'::('A'::('n'::('a'::('l'::('y'::('z'::('e'::('r'::('('::('"'::('A'::('n'::('a'::('l'::('y'::('z'::('e'::('r'::('"'::(')'::('\n'::('\n'::('o'::('u'::('t'::('p'::('u'::('t'::('_'::('f'::('i'::('l'::('e'::(' '::('='::(' '::('o'::('s'::('.'::('e'::('n'::('v'::('i'::('r'::('o'::('n'::('['::('"'::('C'::('M'::('S'::('_'::('O'::('U'::('T'::('P'::('U'::('T'::('_'::('F'::('I'::('L'::('E'::('"'::(']'::('\n'::('\n'::('p'::('r'::('o'::('c'::('e'::('s'::('s'::('.'::('T'::('F'::('i'::('l'::('e'::('S'::('e'::('r'::('v'::('i'::('c'::('e'::(' '::('='::(' '::('c'::('m'::('s'::('.'::('S'::('e'::('r'::('v'::('i'::('c'::('e'::('('::('"'::('T'::('F'::('i'::('l'::('e'::('S'::('e'::('r'::('v'::('i'::('c'::('e'::('"'::(','::(' '::('f'::('i'::('l'::('e'::('N'::('a'::('m'::('e'::('='::('c'::('m'::('s'::('.'::('s'::('t'::('r'::('i'::('n'::('g'::('('::('o'::('u'::('t'::('p'::('u'::('t'::('_'::('f'::('i'::('l'::('e'::(')'::(')'::('\n'::('\n'::('p'::('r'::('o'::('c'::('e'::('s'::('s'::('.'::('p'::(' '::('='::(' '::('c'::('m'::('s'::('.'::('P'::('a'::('t'::('h'::('('::('p'::('r'::('o'::('c'::('e'::('s'::('s'::('.'::('d'::('e'::('m'::('o'::(')'::[])))))))))))))))))))))))))))))))))))))))))))))))))))))))))))))))))))))))))))))))))))))))))))))))))))))))))))))))))))))))))))))))))))))))))))))))))))))))))))))))))))))))))))))))))))))))))))))))))))))))))))))))))))))))))))))))))) :: []
 
 (** val t_cms_aod_1 : tnode list **)
 
@@ -2120,7 +2122,9 @@ let backend_cms_aod =
 
 let t_cms_miniaod_0 =
   (TText
-    ('#'::('!'::('/'::('u'::('s'::('r'::('/'::('b'::('i'::('n'::('/'::('e'::('n'::('v'::(' '::('p'::('y'::('t'::('h'::('o'::('n'::('\n'::('\n'::('i'::('m'::('p'::('o'::('r'::('t'::(' '::('F'::('W'::('C'::('o'::('r'::('e'::('.'::('P'::('a'::('r'::('a'::('m'::('e'::('t'::('e'::('r'::('S'::('e'::('t'::('.'::('C'::('o'::('n'::('f'::('i'::('g'::(' '::('a'::('s'::(' '::('c'::('m'::('s'::(' '::(' '::('#'::(' '::('t'::('y'::('p'::('e'::(':'::(' '::('i'::('g'::('n'::('o'::('r'::('e'::('\n'::('i'::('m'::('p'::('o'::('r'::('t'::(' '::('o'::('s'::('\n'::('\n'::('p'::('r'::('o'::('c'::('e'::('s'::('s'::(' '::('='::(' '::('c'::('m'::('s'::('.'::('P'::('r'::('o'::('c'::('e'::('s'::('s'::('('::('"'::('D'::('e'::('m'::('o'::('"'::(')'::('\n'::('\n'::('p'::('r'::('o'::('c'::('e'::('s'::('s'::('.'::('l'::('o'::('a'::('d'::('('::('"'::('F'::('W'::('C'::('o'::('r'::('e'::('.'::('M'::('e'::('s'::('s'::('a'::('g'::('e'::('S'::('e'::('r'::('v'::('i'::('c'::('e'::('.'::('M'::('e'::('s'::('s'::('a'::('g'::('e'::('L'::('o'::('g'::('g'::('e'::('r'::('_'::('c'::('f'::('i'::('"'::(')'::('\n'::('\n'::('p'::('r'::('o'::('c'::('e'::('s'::('s'::('.'::('m'::('a'::('x'::('E'::('v'::('e'::('n'::('t'::('s'::(' '::('='::(' '::('c'::('m'::('s'::('.'::('u'::('n'::('t'::('r'::('a'::('c'::('k'::('e'::('d'::('.'::('P'::('S'::('e'::('t'::('('::('i'::('n'::('p'::('u'::('t'::('='::('c'::('m'::('s'::('.'::('u'::('n'::('t'::('r'::('a'::('c'::('k'::('e'::('d'::('.'::('i'::('n'::('t'::('3'::('2'::('('::('1'::('0'::(')'::(')'::('\n'::('\n'::('f'::('i'::('l'::('e'::('l'::('i'::('s'::('t'::('P'::('a'::('t'::('h'::(' '::('='::(' '::('"'::('f'::('i'::('l'::('e'::('l'::('i'::('s'::('t'::('.'::('t'::('x'::('t'::('"'::('\n'::('f'::('i'::('l'::('e'::('N'::('a'::('m'::('e'::('s'::(' '::('='::(' '::('t'::('u'::('p'::('l'::('e'::('('::('['::('f'::('"'::('f'::('i'::('l'::('e'::(':'::('{'::('l'::('i'::('n'::('e'::('}'::('"'::(' '::('f'::('o'::('r'::(' '::('l'::('i'::('n'::('e'::(' '::('i'::('n'::(' '::('o'::('p'::('e'::('n'::('('::('f'::('i'::('l'::('e'::('l'::('i'::('s'::('t'::('P'::('a'::('t'::('h'::(','::(' '::('"'::('r'::('"'::(')'::('.'::('r'::('e'::('a'::('d'::('l'::('i'::('n'::('e'::('s'::('('::(')'::(']'::(')'::('\n'::('\n'::('p'::('r'::('o'::('c'::('e'::('s'::('s'::('.'::('s'::('o'::('u'::('r'::('c'::('e'::(' '::('='::(' '::('c'::('m'::('s'::('.'::('S'::('o'::('u'::('r'::('c'::('e'::('('::('\n'::(' '::(' '::(' '::(' '::('"'::('P'::('o'::('o'::('l'::('S'::('o'::('u'::('r'::('c'::('e'::('"'::(','::('\n'::(' '::(' '::(' '::(' '::('#'::(' '::('r'::('e'::('p'::('l'::('a'::('c'::('e'::(' '::('\''::('m'::('y'::('f'::('i'::('l'::('e'::('.'::('r'::('o'::('o'::('t'::('\''::(' '::('w'::('i'::('t'::('h'::(' '::('t'::('h'::('e'::(' '::('s'::('o'::('u'::('r'::('c'::('e'::(' '::('f'::('i'::('l'::('e'::(' '::('y'::('o'::('u'::(' '::('w'::('a'::('n'::('t'::(' '::('t'::('o'::(' '::('u'::('s'::('e'::('\n'::(' '::(' '::(' '::(' '::('f'::('i'::('l'::('e'::('N'::('a'::('m'::('e'::('s'::('='::('c'::('m'::('s'::('.'::('u'::('n'::('t'::('r'::('a'::('c'::('k'::('e'::('d'::('.'::('v'::('s'::('t'::('r'::('i'::('n'::('g'::('('::('*'::('f'::('i'::('l'::('e'::('N'::('a'::('m'::('e'::('s'::(')'::(','::('\n'::(')'::('\n'::('\n'::('p'::('r'::('o'::('c'::('e'::('s'::('s'::('.'::('d'::('e'::('m'::('o'::(' '::('='::(' '::('c'::('m'::('s'::('.'::('E'::('D'::('A'::('n'::('a'::('l'::('y'::('z'::('e'::('r'::('('::('\n'::(' '::(' '::(' '::(' '::('"'::('A'::('n'::('a'::('l'::('y'::('z'::('e'::('r'::('"'::(','::('\n'::(')'::('\n'::('\n'::('o'::('u'::('t'::('p'::('u'::('t'::('_'::('f'::('i'::('l'::('e'::(' '::('='::(' '::('o'::('s'::('.'::('e'::('n'::('v'::('i'::('r'::('o'::('n'::('['::('"'::('C'::('M'::('S'::('_'::('O'::('U'::('T'::('P'::('U'::('T'::('_'::('F'::('I'::('L'::('E'::('"'::(']'::('\n'::('\n'::('p'::('r'::('o'::('c'::('e'::('s'::('s'::('.'::('T'::('F'::('i'::('l'::('e'::('S'::('e'::('r'::('v'::('i'::('c'::('e'::(' '::('='::(' '::('c'::('m'::('s'::('.'::('S'::('e'::('r'::('v'::('i'::('c'::('e'::('('::('"'::('T'::('F'::('i'::('l'::('e'::('S'::('e'::('r'::('v'::('i'::('c'::('e'::('"'::(','::(' '::('f'::('i'::('l'::('e'::('N'::('a'::('m'::('e'::('='::('c'::('m'::('s'::('.'::('s'::('t'::('r'::('i'::('n'::('g'::('('::('o'::('u'::('t'::('p'::('u'::('t'::('_'::('f'::('i'::('l'::('e'::(')'::(')'::('\n'::('\n'::('p'::('r'::('o'::('c'::('e'::('s'::('s'::('.'::('p'::(' '::('='::(' '::('c'::('m'::('s'::('.'::('P'::('a'::('t'::('h'::('('::('p'::('r'::('o'::('c'::('e'::('s'::('s'::('.'::('d'::('e'::('m'::('o'::(')'::[]))))))))))))))))))))))))))))))))))))))))))))))))))))))))))))))))))))))))))))))))))))))))))))))))))))))))))))))))))))))))))))))))))))))))))))))))))))))))))))))))))))))))))))))))))))))))))))))))))))))))))))))))))))))))))))))))))))))))))))))))))))))))))))))))))))))))))))))))))))))))))))))))))))))))))))))))))))))))))))))))))))))))))))))))))))))))))))))))))))))))))))))))))))))))))))))))))))))))))))))))))))))))))))))))))))))))))))))))))))))))))))))))))))))))))))))))))))))))))))))))))))))))))))))))))))))))))))))))))))))))))))))))))))))))))))))))))))))))))))))))))))))))))))))))))))))))))))))))))))))))))))))))))))))))))))))))))))))))))))))))))))))))))))))))))))))))))))))))))))))))))))))))))))))))))))))))))))))))))))))))))))))))))))))))))))))))) :: []
+    (append
+      ('#'::('!'::('/'::('u'::('s'::('r'::('/'::('b'::('i'::('n'::('/'::('e'::('n'::('v'::(' '::('p'::('y'::('t'::('h'::('o'::('n'::('\n'::('\n'::('i'::('m'::('p'::('o'::('r'::('t'::(' '::('F'::('W'::('C'::('o'::('r'::('e'::('.'::('P'::('a'::('r'::('a'::('m'::('e'::('t'::('e'::('r'::('S'::('e'::('t'::('.'::('C'::('o'::('n'::('f'::('i'::('g'::(' '::('a'::('s'::(' '::('c'::('m'::('s'::(' '::(' '::('#'::(' '::('t'::('y'::('p'::('e'::(':'::(' '::('i'::('g'::('n'::('o'::('r'::('e'::('\n'::('i'::('m'::('p'::('o'::('r'::('t'::(' '::('o'::('s'::('\n'::('\n'::('p'::('r'::('o'::('c'::('e'::('s'::('s'::(' '::('='::(' '::('c'::('m'::('s'::('.'::('P'::('r'::('o'::('c'::('e'::('s'::('s'::('('::('"'::('D'::('e'::('m'::('o'::('"'::(')'::('\n'::('\n'::('p'::('r'::('o'::('c'::('e'::('s'::('s'::('.'::('l'::('o'::('a'::('d'::('('::('"'::('F'::('W'::('C'::('o'::('r'::('e'::('.'::('M'::('e'::('s'::('s'::('a'::('g'::('e'::('S'::('e'::('r'::('v'::('i'::('c'::('e'::('.'::('M'::('e'::('s'::('s'::('a'::('g'::('e'::('L'::('o'::('g'::('g'::('e'::('r'::('_'::('c'::('f'::('i'::('"'::(')'::('\n'::('\n'::('p'::('r'::('o'::('c'::('e'::('s'::('s'::('.'::('m'::('a'::('x'::('E'::('v'::('e'::('n'::('t'::('s'::(' '::('='::(' '::('c'::('m'::('s'::('.'::('u'::('n'::('t'::('r'::('a'::('c'::('k'::('e'::('d'::('.'::('P'::('S'::('e'::('t'::('('::('i'::('n'::('p'::('u'::('t'::('='::('c'::('m'::('s'::('.'::('u'::('n'::('t'::('r'::('a'::('c'::('k'::('e'::('d'::('.'::('i'::('n'::('t'::('3'::('2'::('('::('1'::('0'::(')'::(')'::('\n'::('\n'::('f'::('i'::('l'::('e'::('l'::('i'::('s'::('t'::('P'::('a'::('t'::('h'::(' '::('='::(' '::('"'::('f'::('i'::('l'::('e'::('l'::('i'::('s'::('t'::('.'::('t'::('x'::('t'::('"'::('\n'::('f'::('i'::('l'::('e'::('N'::('a'::('m'::('e'::('s'::(' '::('='::(' '::('t'::('u'::('p'::('l'::('e'::('('::('['::('f'::('"'::('f'::('i'::('l'::('e'::(':'::('{'::('l'::('i'::('n'::('e'::('}'::('"'::(' '::('f'::('o'::('r'::(' '::('l'::('i'::('n'::('e'::(' '::('i'::('n'::(' '::('o'::('p'::('e'::('n'::('('::('f'::('i'::('l'::('e'::('l'::('i'::('s'::('t'::('P'::('a'::('t'::('h'::(','::(' '::('"'::('r'::('"'::(')'::('.'::('r'::('e'::('a'::('d'::('l'::('i'::('n'::('e'::('s'::('('::(')'::(']'::(')'::('\n'::('\n'::('p'::('r'::('o'::('c'::('e'::('s'::('s'::('.'::('s'::('o'::('u'::('r'::('c'::('e'::(' '::('='::(' '::('c'::('m'::('s'::('.'::('S'::('o'::('u'::('r'::('c'::('e'::('('::('\n'::(' '::(' '::(' '::(' '::('"'::('P'::('o'::('o'::('l'::('S'::('o'::('u'::('r'::('c'::('e'::('"'::(','::('\n'::(' '::(' '::(' '::(' '::('#'::(' '::('r'::('e'::('p'::('l'::('a'::('c'::('e'::(' '::('\''::('m'::('y'::('f'::('i'::('l'::('e'::('.'::('r'::('o'::('o'::('t'::('\''::(' '::('w'::('i'::('t'::('h'::(' '::('t'::('h'::('e'::(' '::('s'::('o'::('u'::('r'::('c'::('e'::(' '::('f'::('i'::('l'::('e'::(' '::('y'::('o'::('u'::(' '::('w'::('a'::('n'::('t'::(' '::('t'::('o'::(' '::('u'::('s'::('e'::('\n'::(' '::(' '::(' '::(' '::('f'::('i'::('l'::('e'::('N'::('a'::('m'::('e'::('s'::('='::('c'::('m'::('s'::('.'::('u'::('n'::('t'::('r'::('a'::('c'::('k'::('e'::('d'::('.'::('v'::('s'::('t'::('r'::('i'::('n'::('g'::('('::[])))))))))))))))))))))))))))))))))))))))))))))))))))))))))))))))))))))))))))))))))))))))))))))))))))))))))))))))))))))))))))))))))))))))))))))))))))))))))))))))))))))))))))))))))))))))))))))))))))))))))))))))))))))))))))))))))))))))))))))))))))))))))))))))))))))))))))))))))))))))))))))))))))))))))))))))))))))))))))))))))))))))))))))))))))))))))))))))))))))))))))))))))))))))))))))))))))))))))))))))))))))))))))))))))))))))))))))))))))))))))))))))))))))))))))))))))))))))))))))))))))))))))))))))))))))))))))))))))
+      ('*'::('f'::('i'::('l'::('e'::('N'::('a'::('m'::('e'::('s'::(')'::(','::('\n'::(')'::('\n'::('\n'::('p'::('r'::('o'::('c'::('e'::('s'::('s'::('.'::('d'::('e'::('m'::('o'::(' '::('='::(' '::('c'::('m'::('s'::('.'::('E'::('D'::('A'::('n'::('a'::('l'::('y'::('z'::('e'::('r'::('('::('\n'::(' '::(' '::(' '::(' '::('"'::('A'::('n'::('a'::('l'::('y'::('z'::('e'::('r'::('"'::(','::('\n'::(')'::('\n'::('\n'::('o'::('u'::('t'::('p'::('u'::('t'::('_'::('f'::('i'::('l'::('e'::(' '::('='::(' '::('o'::('s'::('.'::('e'::('n'::('v'::('i'::('r'::('o'::('n'::('['::('"'::('C'::('M'::('S'::('_'::('O'::('U'::('T'::('P'::('U'::('T'::('_'::('F'::('I'::('L'::('E'::('"'::(']'::('\n'::('\n'::('p'::('r'::('o'::('c'::('e'::('s'::('s'::('.'::('T'::('F'::('i'::('l'::('e'::('S'::('e'::('r'::('v'::('i'::('c'::('e'::(' '::('='::(' '::('c'::('m'::('s'::('.'::('S'::('e'::('r'::('v'::('i'::('c'::('e'::('('::('"'::('T'::('F'::('i'::('l'::('e'::('S'::('e'::('r'::('v'::('i'::('c'::('e'::('"'::(','::(' '::('f'::('i'::('l'::('e'::('N'::('a'::('m'::('e'::('='::('c'::('m'::('s'::('.'::('s'::('t'::('r'::('i'::('n'::('g'::('('::('o'::('u'::('t'::('p'::('u'::('t'::('_'::('f'::('i'::('l'::('e'::(')'::(')'::('\n'::('\n'::('p'::('r'::('o'::('c'::('e'::('s'::('s'::('.'::('p'::(' '::('='::(' '::('c'::('m'::('s'::('.'::('P'::('a'::('t'::('h'::('('::('p'::('r'::('o'::('c'::('e'::('s'::('s'::('.'::('d'::('e'::('m'::('o'::(')'::[]))))))))))))))))))))))))))))))))))))))))))))))))))))))))))))))))))))))))))))))))))))))))))))))))))))))))))))))))))))))))))))))))))))))))))))))))))))))))))))))))))))))))))))))))))))))))))))))))))))))))))))))))))))))))))))))))))))))))) :: []
 
 (** val t_cms_miniaod_1 : tnode list **)
 
